@@ -209,6 +209,8 @@ impl<T> OptionParser<T> {
         let args = args.into();
         let mut err = None;
         let mut state = State::construct(args, &short_flags, &short_args, &mut err);
+        #[cfg(bpaf_verif)]
+        crate::verif::evx("construct", &state, &format!("\"kinds\":[{}]", state.verif_kinds()));
 
         // this only handles disambiguation failure in construct
         if let Some(msg) = err {
@@ -271,8 +273,12 @@ impl<T> OptionParser<T> {
         let err = match res {
             Ok(ok) => {
                 if let Some((ix, _)) = args.items_iter().next() {
+                    #[cfg(bpaf_verif)]
+                    crate::verif::evx("verdict", args, "\"v\":\"unconsumed\"");
                     Message::Unconsumed(ix)
                 } else {
+                    #[cfg(bpaf_verif)]
+                    crate::verif::evx("verdict", args, "\"v\":\"ok\"");
                     return Ok(ok);
                 }
             }
